@@ -8,7 +8,7 @@
    the result satisfies Q.  [Inv P] = P is symmetric positive semidefinite.
    What is NOT proved: that the rounded binary64 computation keeps these invariants (named
    partial gap; attacked at run time by the adversarial histories of tools/props/c06.py). *)
-From V Require Import Model.Kalman Proofs.Kalman Proofs.KalmanSource Proofs.KalmanTie Gen.ConstKalman.
+From V Require Import Model.Kalman Model.KalmanRun Proofs.Kalman Proofs.KalmanSource Proofs.KalmanTie Gen.ConstKalman.
 From Coq Require Import Reals Lra String.
 Close Scope float_scope.
 Open Scope R_scope.
@@ -100,7 +100,9 @@ Theorem C06_model_constants :
   /\ KALMAN_AVG_BUF_LEN = 8%Z /\ KALMAN_STABLE_AFTER = 8%Z /\ KALMAN_INIT_FREQ_UNC = 100%Z
   /\ KALMAN_CHI_CONSTS = " const P: f64 = 0.3275911; const A1: f64 = 0.254829592; const A2: f64 = -0.284496736; const A3: f64 = 1.421413741; const A4: f64 = -1.453152027; const A5: f64 = 1.061405429; "%string
   /\ (KALMAN_SQRT_SITES_SOURCE, KALMAN_INVERSE_SITES_SOURCE, KALMAN_DIV_SITES_SOURCE,
-      KALMAN_DIV_SITES_MATRIX, KALMAN_SQRT_SITES_MOD) = (6, 3, 26, 3, 5)%Z.
+      KALMAN_DIV_SITES_MATRIX, KALMAN_SQRT_SITES_MOD) = (6, 3, 26, 3, 5)%Z
+  /\ ((TT_FROM_SECONDS_ROUNDS + TT_FROM_SECONDS_TRUNCS, TT_ABS_SATURATES + TT_ABS_WRAPS,
+       TT_POLL_INC_SATURATES + TT_POLL_INC_WRAPS, TT_POLL_DEC_SATURATES + TT_POLL_DEC_WRAPS) = (1, 1, 1, 1))%Z.
 Proof. exact kalman_constants_tie. Qed.
 
 (* non-vacuity: a positive definite covariance satisfies the hypotheses of all of the above *)
@@ -125,6 +127,13 @@ Proof.
   intros. unfold cfg_ok, NoiseInv, nonnegl, SInv, FInv, Inv, InvR, meas_ok; simpl.
   repeat split; try lra; try (repeat constructor; lra). discriminate.
 Qed.
+
+(* the binary64 instance that the correspondence executes is the same code: one time step and one
+   conversion evaluated with primitive floats (1.5 s = 0x1_7FFFFFFF in 2^-32 s units) *)
+Example C06_nonvacuous_float :
+  run (9%Z, [4609434218613702656%Z]) = [6442450943%Z]
+  /\ run (10%Z, [4294967296%Z]) = [4607182418801065984%Z].
+Proof. vm_compute. split; reflexivity. Qed.
 
 Print Assumptions C06_progress_exact.
 Print Assumptions C06_absorb_exact.
